@@ -35,6 +35,7 @@ from halmos.bitvec import HalmosBitVec as BV  # noqa: E402
 from halmos.bytevec import ByteVec, ConcreteChunk, SymbolicChunk  # noqa: E402
 from halmos import sevm as _sevm  # noqa: E402
 from halmos.sevm import Message, State, copy_returndata_to_memory  # noqa: E402
+from halmos.contract import Contract  # noqa: E402
 
 from vlib import zeval  # noqa: E402
 
@@ -410,14 +411,19 @@ def _msg(data):
 class Impl:
     """the real ByteVec objects; `route` (an rng-driven selector) picks between equivalent public entry points"""
 
-    def __init__(self, rng, ctx=None):
+    def __init__(self, rng, ctx=None, force=()):
         self.pool = {n: ByteVec() for n in NAMES}
         self.rng = rng
         self.ctx = ctx
         self.last_route = ""
+        self.force = set(force)  # routes to take whenever they are applicable (corpus cases)
 
     def pick(self, options):
-        r = options[self.rng.randrange(len(options))] if self.rng else options[0]
+        forced = [o for o in options if o in self.force]
+        if forced:
+            r = forced[0]
+        else:
+            r = options[self.rng.randrange(len(options))] if self.rng else options[0]
         self.last_route = r
         if self.ctx:
             self.ctx.count(f"route:{r}")
@@ -586,9 +592,20 @@ class Impl:
             _, a, s, e, b = op
             routes = ["sl:slice", "sl:getitem"]
             if e > s:
-                routes += ["sl:mslice", "sl:calldata_slice", "sl:ret"]
+                routes += ["sl:mslice", "sl:calldata_slice", "sl:ret", "sl:contract"]
             r = self.pick(routes)
-            if r == "sl:slice":
+            extra = ""
+            if r == "sl:contract":
+                # the code wrapper (CODECOPY / EXTCODECOPY): Contract.slice(start, size) and unwrapped_slice(start, stop)
+                code = Contract(P[a])
+                v = code.slice(s, e - s)
+                u = code.unwrapped_slice(s, e)
+                ut = list(int.to_bytes(u.value, u.size // 8, "big")) if u.is_concrete else term_tokens(u.value)
+                if isinstance(v, ByteVec) and ut != value_tokens(v):
+                    extra += " !unwrapped_slice=" + tok_str(ut)
+                if len(code) != len(P[a]):
+                    extra += f" !codelen={len(code)}"
+            elif r == "sl:slice":
                 v = P[a].slice(s, e)
             elif r == "sl:getitem":
                 v = P[a][s:e]
@@ -602,15 +619,18 @@ class Impl:
             if not isinstance(v, ByteVec):
                 raise TypeError("slice result is not a ByteVec")
             P[b] = v
-            return "bytes " + tok_str(value_tokens(v)) + self._check_len(v, max(e - s, 0))
+            return "bytes " + tok_str(value_tokens(v)) + self._check_len(v, max(e - s, 0)) + extra
         if k == "concretize":
             _, a, b, sub = op
             m = {var(n, len(bs)): BitVecVal(int.from_bytes(bytes(bs), "big"), 8 * len(bs)) for n, bs in sub.items()}
             P[b] = P[a].concretize(m)
             return "ok"
         if k == "getbyte":
-            r = self.pick(["gb:get_byte", "gb:getitem"])
-            v = P[op[1]].get_byte(op[2]) if r == "gb:get_byte" else P[op[1]][op[2]]
+            r = self.pick(["gb:get_byte", "gb:getitem", "gb:contract"])
+            if r == "gb:contract":
+                v = Contract(P[op[1]])[op[2]]
+            else:
+                v = P[op[1]].get_byte(op[2]) if r == "gb:get_byte" else P[op[1]][op[2]]
             if isinstance(v, int):
                 if not 0 <= v < 256:
                     raise TypeError("byte out of range")
@@ -629,7 +649,8 @@ class Impl:
             v = P[op[1]].unwrap()
             return "bytes " + tok_str(term_tokens(v))
         if k == "len":
-            return f"num {len(P[op[1]])}"
+            r = self.pick(["len:len", "len:contract"])
+            return f"num {len(Contract(P[op[1]])) if r == 'len:contract' else len(P[op[1]])}"
         raise ValueError(op)
 
     @staticmethod
@@ -1053,13 +1074,13 @@ class Runner:
         self.lines.append("save")
         self.records.append(None)
 
-    def add_history(self, ops, tag, restored_preamble=None):
+    def add_history(self, ops, tag, restored_preamble=None, force=()):
         """run on the real code + PyFlat now, queue the lines for Lean.
         restored_preamble: operations already checked once (save_preamble) that are re-applied to the real code
         without being compared again; the Lean side returns to the saved pool instead"""
         ctx = self.ctx
         mode = "alias" if self.alias_live else "noalias"
-        impl = Impl(ctx.rng, ctx)
+        impl = Impl(ctx.rng, ctx, force)
         flat = PyFlat()
         if restored_preamble is None:
             self.lines.append(f"reset {mode} " + " ".join(NAMES))
@@ -1132,6 +1153,8 @@ class Runner:
                     f"PyFlat and Lean Spec disagree on {line!r}: {r_flat} ; {d_flat}  vs  {s_reply} ; {s_digest}"
                 )
             dkind = op[-1][0] if op[0] in ("append", "setslice") else (op[3][0] if op[0] in ("setbyte", "setword") else "")
+            if op[0] in ("slice", "getbyte", "len", "copy"):
+                dkind = rec["route"]  # which wrapper served the read
             shape = ",".join(sorted({x.split("/")[1] for x in parse_layouts(d_impl).get(op[1], "-").split(",") if "/" in x}))
             ctx.case((op[0], dkind, rec["pos"], rec["route"], shape, r_impl.split(" ")[0] + r_impl[3:12] if r_impl.startswith("err") else ""))
             ctx.count(f"op:{op[0]}")
@@ -1150,6 +1173,7 @@ class Runner:
                 "kind": "history", "ops": [op_to_json(o) for o in hist["ops"][: rec["i"] + 1]],
                 "line": line, "impl": [r_impl, d_impl], "model": [m_reply, m_digest], "spec": [s_reply, s_digest],
                 "transcript": [op_line(o) for o in hist["ops"][: rec["i"] + 1]],
+                "force_routes": [rec["route"]] if rec["route"] else [],
             }
             if not impl_vs_spec:
                 if impl_vs_model and self.alias_live:
@@ -1192,9 +1216,9 @@ class Runner:
         return n
 
 
-def run_history_python_only(ops, rng=None):
+def run_history_python_only(ops, rng=None, force=()):
     """replay oracle: real code vs PyFlat; returns index and description of the first divergence or None"""
-    impl = Impl(rng)
+    impl = Impl(rng, force=force)
     flat = PyFlat()
     for i, op in enumerate(ops):
         r_impl = impl.step(op)
@@ -1311,6 +1335,84 @@ def directed(ctx, max_mem_src, alias_live=None):
             if got != exp or len(mem) != len(exp) or value_tokens(mem) != exp:
                 viol("returndata:partial", f"copy_returndata_to_memory(ret_size={ret_size}, loc={loc}) wrote {tok_str(got)} expected {tok_str(exp)}",
                      {"ret_size": ret_size, "loc": loc})
+    # --- Contract (the code wrapper): slice / unwrapped_slice / __getitem__ / __len__ read the same flat array
+    sym = var("y4", 4)
+    sym32 = var("x32", 32)
+    pre = bytes(range(0x60, 0x66))
+    tail = bytes([0xF0, 0xF1, 0xF2])
+    codes = [
+        ("concrete-hex", Contract.from_hexcode(pre.hex()), list(pre)),
+        ("concrete-bytes", Contract(pre + tail), list(pre + tail)),
+        ("two-concrete-chunks", Contract(ByteVec([pre, tail])), list(pre + tail)),
+        ("prefix-sym-tail", Contract(ByteVec([pre, sym, tail])), list(pre) + [("y4", i) for i in range(4)] + list(tail)),
+        ("prefix-word-tail", Contract(ByteVec([pre, sym32, tail])), list(pre) + [("x32", i) for i in range(32)] + list(tail)),
+        ("prefix-sym", Contract(ByteVec([pre, sym])), list(pre) + [("y4", i) for i in range(4)]),
+        ("sym-first", Contract(ByteVec([sym, pre])), [("y4", i) for i in range(4)] + list(pre)),
+        ("one-byte-prefix", Contract(ByteVec([b"\x60", sym, tail])), [0x60] + [("y4", i) for i in range(4)] + list(tail)),
+        ("empty", Contract(ByteVec()), []),
+    ]
+    for cname, code, ref in codes:
+        n = len(ref)
+        # length of the concrete first chunk (what Contract caches as its fast-path prefix)
+        first = code._code.chunks.peekitem(0)[1] if code._code.chunks else None
+        npre = len(first) if isinstance(first, ConcreteChunk) else 0
+        if len(code) != n:
+            viol("contract:len", f"len(Contract {cname}) = {len(code)}, expected {n}", {"code": cname})
+        starts = sorted({0, 1, max(0, npre - 2), max(0, npre - 1), npre, npre + 1, max(0, n - 1), n, n + 1, n + 40, M, 2 * M})
+        csizes = sorted({0, 1, 2, 4, 31, 32, 33, n, n + 7, npre})
+        for st in starts:
+            # single bytes
+            if st <= n + 40:
+                try:
+                    gb = code[st]
+                    gbt = [gb] if isinstance(gb, int) else term_tokens(gb)
+                except Exception as e:  # noqa: BLE001
+                    gbt = "err " + err_name(e)
+                exp1 = PyFlat.read(ref, st, st + 1)
+                ctx.case(("contract-getitem", cname, st))
+                if gbt != exp1:
+                    viol(f"contract:getitem:{'prefix' if st < npre else 'past-prefix' if st < n else 'past-end'}",
+                         f"Contract({cname})[{st}] = {gbt}, flat array gives {exp1}", {"code": cname, "start": st})
+            for size in csizes:
+                where = ("empty" if size == 0 else "inside-prefix" if st + size <= npre else "straddles-prefix-end" if st < npre
+                         else "past-end" if st >= n else "after-prefix")
+                if where == "straddles-prefix-end" and st + size > n:
+                    where = "prefix-to-past-end"
+                exp = PyFlat.read(ref, st, st + size)
+                try:
+                    v = code.slice(st, size)
+                    got = value_tokens(v) if len(v) else []
+                    glen = len(v)
+                    err = None
+                except Exception as e:  # noqa: BLE001
+                    got, glen, err = None, None, err_name(e)
+                ctx.case(("contract-slice", cname, where, st if st < 4096 else st - M, size))
+                ctx.count(f"contract:slice:{where}")
+                if err is not None or got != exp or glen != size:
+                    viol(f"contract:slice:{where}",
+                         f"Contract({cname}).slice(start={st}, size={size}) = {err or tok_str(got)} (length {glen}), "
+                         f"flat zero-extended array gives {tok_str(exp)} (length {size})",
+                         {"code": cname, "start": st, "size": size})
+                if size:
+                    try:
+                        u = code.unwrapped_slice(st, st + size)
+                        ut = list(int.to_bytes(u.value, u.size // 8, "big")) if u.is_concrete else term_tokens(u.value)
+                    except Exception as e:  # noqa: BLE001
+                        ut = "err " + err_name(e)
+                    if ut != exp:
+                        viol(f"contract:unwrapped_slice:{where}",
+                             f"Contract({cname}).unwrapped_slice({st}, {st + size}) = {ut if isinstance(ut, str) else tok_str(ut)}, "
+                             f"flat array gives {tok_str(exp)}", {"code": cname, "start": st, "size": size})
+        # the size limit of code reads: size > MAX_MEMORY_SIZE is refused, a large start is not
+        for st, size, should_fail in [(0, M + 1, True), (n + 5, M + 1, True), (2 * M, 8, False), (0, M, False)]:
+            try:
+                v = code.slice(st, size)
+                err = None
+            except Exception as e:  # noqa: BLE001
+                err = err_name(e)
+            ctx.case(("contract-limit", cname, st, size))
+            if should_fail != (err == "OutOfGas") or (err is None and len(v) != size):
+                viol("contract:slice:size-limit", f"Contract({cname}).slice({st}, {size}) -> {err or len(v)}", {"code": cname, "start": st, "size": size})
     # --- negative offsets are rejected and change nothing
     for which, f in [
         ("get_byte", lambda m: m.get_byte(-1)),
@@ -1433,7 +1535,8 @@ def correspond(ctx):
         for p in sorted(corpus.glob("*.json")):
             data = json.loads(p.read_text())
             for h in data.get("histories", [data] if "ops" in data else []):
-                runner.add_history([op_from_json(o) for o in h["ops"]], f"corpus:{p.name}")
+                runner.add_history([op_from_json(o) for o in h["ops"]], f"corpus:{p.name}",
+                                   force=h.get("force_routes", ()))
                 ctx.count("corpus-history")
     runner.finish()
 
@@ -1517,7 +1620,7 @@ def replay(ctx, data) -> bool:
         for seed in range(8):  # the routes are chosen by an rng: try several
             import random
 
-            r = run_history_python_only(ops, random.Random(seed))
+            r = run_history_python_only(ops, random.Random(seed), force=rep.get("force_routes", ()))
             if r is not None:
                 print(f"  diverges at step {r[0]}: {r[1]}")
                 return True
